@@ -1,7 +1,7 @@
 (* Property C01: an operator acts on arrays exactly as the matrix it represents.
    Only statements closed by [exact]; the lemmas live in OpProofs.v / ToDense.v / Dtype.v. *)
 From Coq Require Import List Arith Bool ZArith.
-From Core Require Import Base Kron Op OpProofs ToDense ZIInst.
+From Core Require Import Base Kron Op OpProofs ToDense ZIInst DtypeTable Dtype DtypeProofs.
 Import ListNotations.
 
 (* forward product = represented matrix times operand, with the right shape, for every operator tree,
@@ -30,3 +30,23 @@ Example C01_example :
   let e : op (R:=zi) := Sum [Kron [D; Ident 2; Diag 1 (fun _ => (2,0)%Z)]; BDiag [(Sliced (Kron [D; D]) [0;1] [2;3], 2)]] in
   wf e = true /\ shape e = (4, 4).
 Proof. cbv zeta. split; reflexivity. Qed.
+
+(* dtype clause (repaired flags): A.dtype is the promotion over all leaves; (A @ X).dtype and (X @ A).dtype are its
+   promotion with the operand's dtype - for every tree of the dtype skeleton; the promotion table is numpy's (generated) *)
+Theorem C01_dtype_promoted : forall e : dsk, nonempty e = true ->
+  dtype dfixed e = ddtype e /\ forall dx, outs dfixed e dx = (promote (ddtype e) dx, promote (ddtype e) dx).
+Proof. exact dtype_promoted. Qed.
+Print Assumptions C01_dtype_promoted.
+Theorem C01_promote_semilattice : (forall a b, promote a b = promote b a) /\ (forall a b c, promote a (promote b c) = promote (promote a b) c) /\ (forall a, promote a a = a).
+Proof. exact (Logic.conj promote_comm (Logic.conj promote_assoc promote_idem)). Qed.
+Print Assumptions C01_promote_semilattice.
+(* the pinned tree: Sum takes its first term's dtype; Identity returns the operand's dtype; Sliced casts the operand *)
+Theorem C01_sum_first_refuted : let fl := {| sum_first := true; concat_first := false; ident_pass := false; perm_pass := false; kronsum_inplace := false; sliced_cast := false |} in
+  dtype fl (DSum [DLeaf LDense F32; DLeaf LDense F64]) <> ddtype (DSum [DLeaf LDense F32; DLeaf LDense F64]).
+Proof. exact sum_first_refuted. Qed.
+Theorem C01_ident_pass_refuted : let fl := {| sum_first := false; concat_first := false; ident_pass := true; perm_pass := false; kronsum_inplace := false; sliced_cast := false |} in
+  out_dtype fl (DLeaf LIdent C128) F64 <> promote (ddtype (DLeaf LIdent C128)) F64.
+Proof. exact ident_pass_refuted. Qed.
+Theorem C01_sliced_cast_refuted : let fl := {| sum_first := false; concat_first := false; ident_pass := false; perm_pass := false; kronsum_inplace := false; sliced_cast := true |} in
+  out_dtype fl (DSliced (DLeaf LDense F32)) C128 <> promote (ddtype (DSliced (DLeaf LDense F32))) C128.
+Proof. exact sliced_cast_refuted. Qed.
